@@ -1,0 +1,15 @@
+//go:build verif
+// +build verif
+
+package sarama
+
+import "sync/atomic"
+
+// verifHookFn holds a func(point string) installed by the verification harness.
+var verifHookFn atomic.Value
+
+func verifHook(point string) {
+	if f, ok := verifHookFn.Load().(func(string)); ok && f != nil {
+		f(point)
+	}
+}
